@@ -425,6 +425,7 @@ pub fn conc_configs(prop: &str, thorough: bool) -> Vec<SimConfig> {
         }
         ("C05", false) => {
             let mut v = pick(&["n2-timeout-None"]);
+            v.push(env_triples_cfg_c05());
             // the clock moving while an operation is in progress: one tick, HTTP/1.1 only
             let mut c = SimConfig::base("n2-h1-one-tick");
             c.allow_h2 = false;
@@ -437,6 +438,7 @@ pub fn conc_configs(prop: &str, thorough: bool) -> Vec<SimConfig> {
         }
         ("C05", true) => {
             let mut v = pick(&["n2-timeout-None", "n2-timeout-Some(0)", "n2-timeout-Some(1)", "n2-lax-is-open"]);
+            v.push(env_triples_cfg_c05());
             let mut c = SimConfig::base("n2-h1-one-tick");
             c.allow_h2 = false;
             c.idle_timeout = Some(1);
@@ -516,6 +518,19 @@ fn held_yield_cfgs_c03() -> Vec<SimConfig> {
     b.allow_h1 = false;
     b.ev_close = false;
     vec![a, b]
+}
+
+/// C05: the search starts with one HTTP/1.1 connection in use and two further requests that wait and dial; from
+/// every state within five steps every pair of operations is also overlapped with every peer close.
+fn env_triples_cfg_c05() -> SimConfig {
+    let mut c = SimConfig::base("one-busy-two-waiting-env-triples");
+    c.prelude = ["Issue(o0,h1)", "Poll(r0)", "DialOk(d0)", "Poll(r0)", "Issue(o0,h1)", "Issue(o0,h1)", "Poll(r1)", "Poll(r2)"].iter().map(|s| s.to_string()).collect();
+    c.max_requests = 3;
+    c.allow_h2 = false;
+    c.ev_dial_fail = false;
+    c.ev_cancel = false;
+    c.max_depth = Some(5);
+    c
 }
 
 /// C04: the search starts with one idle HTTP/1.1 connection; two more requests; critical-section yields. A
